@@ -2896,7 +2896,7 @@ class quantized_po2(base_quantizer.BaseQuantizer):  # pylint: disable=invalid-na
   def __str__(self):
     flags = [str(self.bits)]
     if self.max_value is not None or self.use_stochastic_rounding:
-      flags.append(str(int(self.max_value)))
+      flags.append(str(self.max_value))
     if self.use_stochastic_rounding:
       flags.append(str(int(self.use_stochastic_rounding)))
     if self.quadratic_approximation:
@@ -3040,7 +3040,7 @@ class quantized_relu_po2(base_quantizer.BaseQuantizer):  # pylint: disable=inval
   def __str__(self):
     flags = [str(self.bits)]
     if self.max_value is not None or self.use_stochastic_rounding:
-      flags.append(str(int(self.max_value)))
+      flags.append(str(self.max_value))
     if self.negative_slope:
       flags.append(str(self.negative_slope))
     if self.use_stochastic_rounding:
